@@ -138,3 +138,54 @@ theorem lineStep_state_independent (c : ICfg) (sortK : List Tag → List Tag) (H
       · simp [hEX, hEY]
 
 end LinVerif.Lemmas.C16
+
+namespace LinVerif.Lemmas.C16
+open LinVerif.Row LinVerif.FlatRow LinVerif.InfluxStream
+
+/-- an accepted line (measurement scanned) leaves exactly its own pieces in the builder -/
+theorem parseLine_accepts (c : ICfg) (ln : ILine) (b : RB) (hn : ln.nameErr = false)
+    (h : (parseLine c b ln).2 = false) :
+    ln.tagsErr = false ∧ ln.fieldsErr = false ∧ ln.tsErr = false ∧
+    ∃ sk sf, (parseLine c b ln).1 =
+      { b with ns := sanitizeName c.reqNs, name := sanitizeName ln.name, kvs := b.kvs ++ ln.tags, staleKvs := sk,
+               fields := b.fields ++ ln.fields.map sanF, staleFields := sf, ts := ln.ts.getD c.now } := by
+  revert h
+  simp only [parseLine, hn, Bool.false_eq_true, if_false]
+  by_cases c2 : over c.limits.maxName (blen ln.name) = true
+  · simp [c2]
+  · simp only [c2, if_false, Bool.false_eq_true]
+    by_cases c3 : ln.tagsErr = true
+    · simp [c3]
+    · simp only [c3, if_false, Bool.false_eq_true]
+      by_cases c4 : over c.limits.maxTags (ln.tags.length + c.enriched.length) = true
+      · simp [c4]
+      · simp only [c4, if_false, Bool.false_eq_true]
+        obtain ⟨t2, t1⟩ := addRowTags_spec c.limits ln.tags ((b.addNameSpace c.reqNs).addMetricName ln.name)
+        rcases hX : addRowTags c.limits ((b.addNameSpace c.reqNs).addMetricName ln.name) ln.tags with ⟨bx, _ | ex⟩
+        · rw [hX] at t2 t1
+          simp only at t2 t1
+          obtain ⟨sk, hsk⟩ := t1 t2.symm
+          simp only
+          by_cases c5 : ln.fieldsErr = true
+          · simp [c5]
+          · simp only [c5, if_false, Bool.false_eq_true]
+            by_cases c6 : over c.limits.maxFields ln.fields.length = true
+            · simp [c6]
+            · simp only [c6, if_false, Bool.false_eq_true]
+              obtain ⟨f2, f1⟩ := addFields_spec c.limits ln.fields bx
+              rcases hF : addFields c.limits bx ln.fields with ⟨fx, _ | ef⟩
+              · rw [hF] at f2 f1
+                simp only at f2 f1
+                obtain ⟨sf, hsf⟩ := f1 f2.symm
+                simp only
+                by_cases c7 : ln.tsErr = true
+                · simp [c7]
+                · simp only [c7, if_false, Bool.false_eq_true]
+                  intro _
+                  refine ⟨by simpa using c3, by simpa using c5, by simpa using c7, sk, sf, ?_⟩
+                  rw [hsf, hsk]
+                  simp [RB.addTimestamp, RB.addMetricName, RB.addNameSpace]
+              · simp
+        · simp
+
+end LinVerif.Lemmas.C16
